@@ -521,6 +521,26 @@ def run_pipeline(spec):
             hist.setdefault("_clocks", []).append(c)
             return Timer(func=c)
 
+        if spec.get("ambient"):
+            # everything else a process can read from its surroundings: wall clocks outside the Timer seam, working directory,
+            # environment.  The perturbed executions get other values than the canonical one.
+            import time as _time
+
+            amb = spec["ambient"]
+            wall = SimClock([amb.get("step", 0.001)])
+            wall.T = float(amb.get("offset", 0.0))
+            for nm in ("time", "monotonic", "perf_counter", "process_time"):
+                P.set(_time, nm, wall)
+            for nm in ("time_ns", "monotonic_ns", "perf_counter_ns"):
+                P.set(_time, nm, lambda wall=wall: int(wall() * 1e9))
+            if amb.get("cwd"):
+                sub = os.path.join(d, "cwd_%s" % amb["cwd"])
+                os.makedirs(sub, exist_ok=True)
+                hist["_old_cwd"] = os.getcwd()
+                os.chdir(sub)
+            for k_, v_ in (amb.get("env") or {}).items():
+                hist.setdefault("_old_env", {})[k_] = os.environ.get(k_)
+                os.environ[k_] = v_
         if spec.get("draw_budget"):
             import numpy as _np
 
@@ -682,6 +702,13 @@ def run_pipeline(spec):
                     hist["results_error"] = repr(e)
     finally:
         P.undo()
+        if hist.get("_old_cwd"):
+            os.chdir(hist.pop("_old_cwd"))
+        for k_, v_ in (hist.pop("_old_env", None) or {}).items():
+            if v_ is None:
+                os.environ.pop(k_, None)
+            else:
+                os.environ[k_] = v_
         shutil.rmtree(d, ignore_errors=True)
     return hist
 
@@ -703,7 +730,17 @@ def run_summaries(image, what, scratch=None):
         tree = os.path.join(d, "TREE.nwk")
         try:
             with contextlib.redirect_stdout(io.StringIO()):
-                if what[0] == "map":
+                if what[0] == "cli":
+                    # through the click commands, as a user runs them (exceptions propagate with standalone_mode=False)
+                    import phyclone.cli as pcli
+
+                    if what[1] == "map":
+                        pcli.map.main(["-i", trace_path, "-o", table, "-t", tree, "--map-type", what[2]], standalone_mode=False)
+                    elif what[1] == "consensus":
+                        pcli.consensus.main(["-i", trace_path, "-o", table, "-t", tree, "-w", what[2], "--consensus-threshold", str(what[3])], standalone_mode=False)
+                    else:
+                        pcli.topology_report.main(["-i", trace_path, "-o", table, "-t", os.path.join(d, "ARCH.tar.gz")], standalone_mode=False)
+                elif what[0] == "map":
                     ppt.write_map_results(trace_path, table, tree, map_type=what[1])
                 elif what[0] == "consensus":
                     ppt.write_consensus_results(trace_path, table, tree, consensus_threshold=what[2], weight_type=what[1])
